@@ -113,9 +113,7 @@ func runPeerSessionCustom(sim *core.Sim, pp PeerPlan, after time.Duration, remot
 
 func runPeerSessionWith(sim *core.Sim, pp PeerPlan, opts peerOpts) *peerRun {
 	// a station has a call sign (a reduced plan may say otherwise)
-	if strings.TrimSpace(pp.Lib.Call) == "" || strings.ContainsAny(pp.Lib.Call, " \t\r\n|") {
-		pp.Lib.Call = "N0CALL"
-	}
+	pp.Lib.Call = ownCall(pp.Lib.Call)
 	hist := mbox.NewHistory(sim)
 	lib := newStation("L", pp.Lib, hist)
 	lib.h.NextSession()
@@ -287,7 +285,7 @@ func checkC05(sim *core.Sim, prop string, pp PeerPlan, pr *peerRun) {
 		for _, f := range strings.Fields(fw) {
 			got = append(got, strings.SplitN(f, "|", 2)[0])
 		}
-		want := []string{strings.ToUpper(pp.Lib.Call)}
+		want := []string{strings.ToUpper(ownCall(pp.Lib.Call))}
 		for _, a := range pp.Aux {
 			want = append(want, wireAddr(a))
 		}
@@ -550,4 +548,12 @@ func (c tapConn) Write(p []byte) (int, error) {
 		c.tap(p[:n])
 	}
 	return n, err
+}
+
+// ownCall: the station's call sign as the executor uses it.
+func ownCall(c string) string {
+	if strings.TrimSpace(c) == "" || strings.ContainsAny(c, " \t\r\n|") {
+		return "N0CALL"
+	}
+	return c
 }
